@@ -236,6 +236,66 @@ def random_behaviours(seed: int, n: int, length: int) -> List[Dict[str, Any]]:
     return out
 
 
+def _snap_job(arg):
+    shard_id, scripts = arg
+    from checks import c16
+    mh = c16._imports()
+    tmp = vlib.scratch("C13") / f"snap{shard_id}"
+    tmp.mkdir(parents=True, exist_ok=True)
+    vh = Vh()
+    recs = []
+    try:
+        for machine in (c16.PyM(mh), c16.RsM(mh, vh)):
+            r, bundles = c16.campaign(machine, scripts, tmp, shard_id)
+            recs += r
+    finally:
+        vh.close()
+        for f in tmp.glob("*"):
+            try:
+                f.unlink()
+            except OSError:
+                pass
+    v = c16.judge(7000 + shard_id, recs)
+    byid = {r["id"]: r for r in recs}
+    bad = []
+    for x in v[2]:
+        r = byid[int(x[0])]
+        subs = sorted(str(f) for f in x[4]) if len(x) > 4 else []
+        comp = str(x[3]) + ("." + "+".join(subs) if subs else "")
+        bad.append((r["impl"], comp, int(x[2]), r["cls"], r["replay"]))
+    return len(recs), bad[:500]
+
+
+def snapshot_cadence(cr: CheckRun) -> None:
+    rnd = random.Random(cr.seed + 13)
+    scripts = []
+    for _ in range(24 if cr.tier == "quick" else 300):
+        pm, ps = rnd.choice([(2, 0), (3, 4), (5, 7), (4, 6), (0, 3), (7, 5)])
+        s = [{"ev": "TimerCfg", "pm": pm, "ps": ps}]
+        for _k in range(rnd.randint(10, 22)):
+            r = rnd.random()
+            if r < 0.12:
+                s.append({"ev": "Step", "ins": {"k": "CLRISR", "m": [rnd.choice([0, 1])]}})
+            elif r < 0.18:
+                s.append({"ev": "Step", "ins": {"k": "SETI", "v": rnd.choice([2, 3, 5])}})
+                s.append({"ev": "Step", "ins": {"k": "WAIT"}})
+            else:
+                s.append({"ev": "Step", "ins": {"k": "NOP"}})
+        scripts.append(s)
+    nsh = min(vlib.NCPU, len(scripts))
+    res = vlib.pmap(_snap_job, [(i, scripts[i::nsh]) for i in range(nsh)])
+    n = 0
+    for cnt, bad in res:
+        n += cnt
+        for impl, comp, k, cls, rep in bad:
+            if comp.split(".")[0] in ("timers", "imem", "irq", "cnt"):
+                cr.violation(f"RestoreKeepsCadence:{impl}:{comp}", f"{impl} machine: a snapshot taken at script position {rep['point']} (timers running) and loaded into a fresh machine "
+                             f"differs from the uninterrupted run in '{comp}' at continuation position {k}", {"kind": "snapshot", **rep})
+    cr.cov["traces_validated_against_impl"] += n
+    cr.cov["evaluations"] += n
+    cr.mark("snapshot-cadence")
+
+
 def run(cr: CheckRun) -> None:
     vlib.setup_repo_imports()
     vlib.build_vh()
@@ -259,6 +319,9 @@ def run(cr: CheckRun) -> None:
     rnd = random_behaviours(cr.seed, 600 if quick else 8000, 60)
     campaign(cr, rnd, "random-large")
     pyrs_direct(cr, rnd[: (200 if quick else 2000)] + items[:: max(1, len(items) // 500)])
+    # 4. machine level, the quantifier's "snapshot-restore points": a machine saved at ANY tick and loaded into a fresh one keeps
+    #    the firing cadence (every position of timer-only scripts is a snapshot point; shares the machinery of C16)
+    snapshot_cadence(cr)
     cr.cov["distinct_nontrivial"] = len({json.dumps(b, sort_keys=True) for b in items + sitems + rnd})
     cr.cov["rule"] = "distinct (configuration, action sequence) behaviours with at least one Tick, replayed on both implementations"
     cr.cov["trusted_base"] = ["vh harness (timer.rs)", "TLC", "lib/vlib.py"]
@@ -273,6 +336,12 @@ def replay(path: str) -> int:
     vlib.setup_repo_imports()
     vlib.build_vh()
     rec = json.loads(Path(path).read_text())["replay"]
+    if rec.get("kind") == "snapshot":
+        n, bad = _snap_job((99, [rec["script"]]))
+        hit = [b for b in bad if b[4]["point"] == rec["point"] and b[0] == rec["impl"]]
+        for b in hit:
+            print(b[:4])
+        return 1 if hit else 0
     beh = rec["behaviour"]
     vh = Vh()
     try:
